@@ -63,3 +63,173 @@ def first_difference(a, b, path=""):
             return None
         return None if x == y else "%s: %r vs %r" % (p, x, y)
     return go(a, b, path)
+
+
+# ---------------------------------------------------------------------------------------------
+# Abstraction of a real document into the shape of Den.tla's denotation (C02)
+
+def sch(t, n="", fl=0, kids=()):
+    return {"t": t, "n": n, "fl": fl, "kids": list(kids)}
+
+
+CUT = sch("...")
+
+
+def abstract_schema(s, comps, K, d=0, hops=0):
+    """real JSON schema -> uniform record; hash components are unfolded, explicit ones stay references;
+    depth grows at property / item / operator-member edges, as in Den.tla"""
+    if not isinstance(s, dict):
+        return sch("BAD", repr(s)[:20])
+    r = s.get("$ref")
+    if isinstance(r, str) and r.startswith(PREF):
+        name = r[len(PREF):]
+        if HASH.match(name):
+            if hops > 12 or name not in comps:
+                return CUT if hops > 12 else sch("DANGLING", name[:12])
+            return abstract_schema(comps[name], comps, K, d, hops + 1)
+        return sch("ref", name)
+
+    def edge(x):
+        return CUT if d >= K else abstract_schema(x, comps, K, d + 1, 0)
+    for key, t in (("allOf", "allOf"), ("anyOf", "anyOf"), ("oneOf", "oneOf")):
+        if key in s:
+            return sch(t, kids=[edge(x) for x in s[key]])
+    ty = s.get("type")
+    if ty == "object":
+        req = set(s.get("required") or [])
+        # the harness hands the document over as JSON with sorted keys: properties are compared as a set
+        return sch("object", kids=[sch("prop", k, 1 if k in req else 0, [edge(v)]) for k, v in sorted((s.get("properties") or {}).items())])
+    if ty == "array":
+        return sch("array", kids=[edge(s.get("items"))])
+    if ty == "string":
+        return sch("uri" if s.get("format") == "uri-reference" else "string")
+    if ty in ("number", "boolean", "integer"):
+        return sch(ty)
+    return sch("UNKNOWN", json.dumps(s)[:40])
+
+
+def abstract_doc(doc, K):
+    comps = ((doc.get("components") or {}).get("schemas")) or {}
+    items = []
+    for key, item in (doc.get("paths") or {}).items():
+        def params(ps, where):
+            # parameters and headers are properties of an object in the source: their schemas sit one level deep
+            return [(p.get("name"), bool(p.get("required", False)), abstract_schema(p.get("schema"), comps, K, 1)) for p in (ps or []) if p.get("in") == where]
+        it = {"pattern": key, "path_params": params(item.get("parameters"), "path"), "query": params(item.get("parameters"), "query"), "ops": {}}
+        for m in ("get", "put", "post", "patch", "delete", "options", "head"):
+            op = item.get(m)
+            if op is None:
+                continue
+            o = {"query": params(op.get("parameters"), "query"), "headers": params(op.get("parameters"), "header"), "request": None, "responses": []}
+            rb = op.get("requestBody")
+            if rb:
+                o["request"] = sorted((md, abstract_schema((c or {}).get("schema"), comps, K)) for md, c in (rb.get("content") or {}).items())
+            for rk, resp in (op.get("responses") or {}).items():
+                hdrs = [(hn, bool((h or {}).get("required", False)), abstract_schema((h or {}).get("schema"), comps, K, 1)) for hn, h in (resp.get("headers") or {}).items()]
+                cont = resp.get("content") or {}
+                if cont:
+                    for md, c in cont.items():
+                        o["responses"].append((str(rk), md, abstract_schema((c or {}).get("schema"), comps, K), hdrs))
+                else:
+                    o["responses"].append((str(rk), None, None, hdrs))
+            it["ops"][m] = o
+        items.append(it)
+    ecomps = {k: abstract_schema(v, comps, K) for k, v in comps.items() if not HASH.match(k)}
+    return {"paths": items, "comps": ecomps}
+
+
+def norm_sch(s):
+    """Den.tla schema record (JSON) -> the same shape with @ stripped from reference names"""
+    if s is None:
+        return None
+    n = s["n"][1:] if s["t"] == "ref" and s["n"].startswith("@") else s["n"]
+    kids = [norm_sch(k) for k in s["kids"]]
+    if s["t"] == "object":
+        kids.sort(key=lambda k: k["n"])
+    return sch(s["t"], n, s["fl"], kids)
+
+
+def expected_doc(case):
+    """CASE record of DenMC.tla -> the shape of abstract_doc"""
+    items = []
+    for pi in case["paths"]:
+        segs = pi["segs"]
+        pattern = "".join("/" + (s["n"] if s["k"] == "lit" else "{%s}" % s["n"]) for s in segs) or "/"
+
+        def props(ps):
+            return [(p["n"], p["fl"] == 1, norm_sch(p["kids"][0])) for p in ps]
+        it = {"pattern": pattern, "path_params": [(s["n"], True, norm_sch(s["s"])) for s in segs if s["k"] == "var"], "query": props(pi["query"]), "ops": {}}
+        for x in pi["xfers"]:
+            for m in x["methods"].split(","):
+                o = {"query": props(x["params"]), "headers": [], "request": None, "responses": []}
+                if x["domain"]:
+                    dm = x["domain"][0]
+                    o["headers"] = props(dm["headers"])
+                    if dm["body"]:
+                        o["request"] = [(dm["media"] or "application/json", norm_sch(dm["body"][0]))]
+                for c in x["ranges"]:
+                    key = c["status"] or "default"
+                    hd = props(c["headers"])
+                    if c["body"]:
+                        o["responses"].append((key, c["media"] or "application/json", norm_sch(c["body"][0]), hd))
+                    else:
+                        o["responses"].append((key, None, None, hd))
+                it["ops"][m] = o
+        items.append(it)
+    comps = {c["name"].lstrip("@"): norm_sch(c["schema"]) for c in case["comps"]}
+    return {"paths": items, "comps": comps}
+
+
+def compare_docs(exp, real):
+    """list of (kind, description) - differences between the denotation and the emitted document"""
+    out = []
+    ep = {}
+    for it in exp["paths"]:
+        if it["pattern"] in ep:
+            out.append(("two-resources-one-path", "the program declares two resources with the path %s" % it["pattern"]))
+        ep.setdefault(it["pattern"], []).append(it)
+    rp = {it["pattern"]: it for it in real["paths"]}
+    for pat, its in ep.items():
+        if pat not in rp:
+            out.append(("path-missing", "path %s is not in the document" % pat))
+            continue
+        r = rp[pat]
+        for e in its:
+            tag = "" if len(its) == 1 else " (one of %d resources with this path)" % len(its)
+            for fld in ("path_params", "query"):
+                if json.dumps(e[fld], sort_keys=True) != json.dumps(r[fld], sort_keys=True):
+                    out.append(("%s-differ" % fld.replace("_", "-"), "%s %s: expected %s, document %s%s" % (pat, fld, json.dumps(e[fld])[:200], json.dumps(r[fld])[:200], tag)))
+            for m, eo in e["ops"].items():
+                ro = r["ops"].get(m)
+                if ro is None:
+                    out.append(("operation-missing", "%s %s is declared but not in the document%s" % (m, pat, tag)))
+                    continue
+                for fld in ("query", "headers", "request"):
+                    if json.dumps(eo[fld], sort_keys=True) != json.dumps(ro[fld], sort_keys=True):
+                        out.append(("%s-differ" % ("request-body" if fld == "request" else "operation-" + fld),
+                                    "%s %s %s: expected %s, document %s" % (m, pat, fld, json.dumps(eo[fld])[:200], json.dumps(ro[fld])[:200])))
+                er = {(k, md): (s, h) for k, md, s, h in eo["responses"]}
+                rr = {(k, md): (s, h) for k, md, s, h in ro["responses"]}
+                for key in er:
+                    if key not in rr:
+                        out.append(("response-missing", "%s %s: response %s (media %s) is declared but not in the document" % (m, pat, key[0], key[1])))
+                    elif json.dumps(er[key][0], sort_keys=True) != json.dumps(rr[key][0], sort_keys=True):
+                        out.append(("response-schema-differs", "%s %s %s: expected %s, document %s" % (m, pat, key, json.dumps(er[key][0])[:200], json.dumps(rr[key][0])[:200])))
+                    elif json.dumps(er[key][1], sort_keys=True) != json.dumps(rr[key][1], sort_keys=True):
+                        out.append(("response-headers-differ", "%s %s %s: expected headers %s, document %s" % (m, pat, key, json.dumps(er[key][1])[:160], json.dumps(rr[key][1])[:160])))
+                for key in rr:
+                    if key not in er:
+                        out.append(("response-undeclared", "%s %s: response %s (media %s) is in the document but not declared" % (m, pat, key[0], key[1])))
+            if len(its) == 1:
+                for m in r["ops"]:
+                    if m not in e["ops"]:
+                        out.append(("operation-undeclared", "%s %s is in the document but not declared" % (m, pat)))
+    for pat in rp:
+        if pat not in ep:
+            out.append(("path-undeclared", "path %s is in the document but not declared" % pat))
+    for name, s in real["comps"].items():
+        if name not in exp["comps"]:
+            out.append(("component-undeclared", "component %s is not a reference declaration of the program" % name))
+        elif json.dumps(exp["comps"][name], sort_keys=True) != json.dumps(s, sort_keys=True):
+            out.append(("component-differs", "component %s: expected %s, document %s" % (name, json.dumps(exp["comps"][name])[:200], json.dumps(s)[:200])))
+    return out
